@@ -205,9 +205,11 @@ def decode(tbuf, lbuf, tolerate_truncated_tail=False):
                 out[inv[ti]] += 1
             if prev == 0:
                 break
-            if prev % LB or prev // LB >= k or prev // LB < 1:
-                E.append(("S7", "previous pointer of stub %d does not point backwards" % k))
+            if prev % LB or prev // LB >= len(stubs) or prev // LB < 1:
+                E.append(("S7", "previous pointer of stub %d is out of range" % k))
                 break
+            # (a pointer towards a LATER stub is unusual for an append-only store but no statement forbids it:
+            # cycles are caught by the guard above, double use by the reach count)
             k = prev // LB
         return out
 
